@@ -587,7 +587,7 @@ fn batch(args: &[String]) -> i32 {
 fn expected_probes(prop: &str) -> Vec<&'static str> {
     match prop {
         "C01" => vec!["row_reuse_hit", "multibyte_token_committed", "canonical_narrowing", "clone_shallow", "clone_deep", "fuel_exhausted_mid_operation", "cache_loss", "eos_committed"],
-        "C02" => vec!["multibyte_token_committed", "token_not_utf8_aligned", "natural_stop_checked"],
+        "C02" => vec!["multibyte_token_committed", "token_not_utf8_aligned", "natural_stop_checked", "resplit_compared"],
         "C03" => vec!["dead_end_search_complete_to_depth", "dead_end_search_budget_exhausted", "guided_completion_ok"],
         "C10" => vec!["slice_applied", "multibyte_token_committed"],
         "C11" => vec!["row_reuse_hit", "cache_loss", "rollback_to_empty", "forced_bytes_nonempty"],
